@@ -1436,10 +1436,12 @@ example : (isAlphaB 102 || 102 == 58) = true ∧ (∀ x ∈ [111, 111], isWordB 
 
 open SH.PromLex.Frag in
 /-- Character level, recursive fragment (SH.Lemmas.PromLexFrag): for every expression built from metric names, range selectors
-    `name[<n>s]`, parentheses, one-argument calls `f(e)` and ` + `, the whole lexer on the text the printer writes returns exactly
+    `name[<n>s]`, parentheses, one-argument calls `f(e)` and the twelve binary operators ` + - * / % ^ == != <= >= < > ` (each
+    written with a blank on either side; round 7), the whole lexer on the text the printer writes returns exactly
     the expression's tokens — by induction on the expression, chaining the step lemmas with the lexer-state invariant (paren depth
-    restored, bracket mode left). Not yet covered: matchers, @/offset modifiers, several arguments, aggregations, the other
-    operators and modifiers, numbers/strings as operands, unary signs; and the bridge from these raw tokens to `parse`. -/
+    restored, bracket mode left). Not yet covered: matchers, @/offset modifiers, several arguments, aggregations, the set
+    operators and the bool/on/ignoring/group modifiers, numbers/strings as operands, unary signs; and the bridge from these raw
+    tokens to `parse`. -/
 theorem lexAll_printText_fragment (e : TE) (hg : Good e) : lexAll (printText e) = (toksOf e, .eof) :=
   lexAll_printText e hg
 
@@ -1447,6 +1449,11 @@ open SH.PromLex.Frag in
 /-- non-vacuity: `f(a[300s] + (b))` is in the fragment -/
 example : Good (.call 102 [] (.add (.rng 97 [] 300) (.par (.sel 98 [])))) := by
   refine ⟨⟨by decide, by simp⟩, ⟨by decide, by simp⟩, ⟨by decide, by simp⟩⟩
+
+open SH.PromLex.Frag in
+/-- the whole lexer on `a <= b ^ c`, by the theorem (not by evaluation) and by evaluation: the same five tokens -/
+example : lexAll (printText (.bin .lte (.sel 97 []) (.bin .pow (.sel 98 []) (.sel 99 [])))) =
+    ([⟨"IDENTIFIER", 1⟩, ⟨"LTE", 2⟩, ⟨"IDENTIFIER", 1⟩, ⟨"POW", 1⟩, ⟨"IDENTIFIER", 1⟩], .eof) := by decide
 
 end Lexical
 
